@@ -21,13 +21,17 @@ BUDGET = {"quick": (16, 300), "thorough": (16, 12000)}
 def graph_case(draw, tier):
     n = draw(st.integers(1, 10 if tier == "quick" else 25))
     pairs = [(i, j) for i in range(n) for j in range(i + 1, n)]
-    shape = draw(st.sampled_from(["random", "random", "tree", "cycle", "star"]))
+    shape = draw(st.sampled_from(["random", "random", "tree", "cycle", "star", "dense"]))
     if shape == "tree":
         edges = [(draw(st.integers(0, i - 1)), i) for i in range(1, n)]
     elif shape == "cycle" and n >= 3:
         edges = [(i, (i + 1) % n) for i in range(n)]
     elif shape == "star":
         edges = [(0, i) for i in range(1, n)]
+    elif shape == "dense":
+        # a clique on all vertices but the last one or two, which stay isolated
+        k = max(1, n - draw(st.integers(1, 2)))
+        edges = [(i, j) for i in range(k) for j in range(i + 1, k)]
     else:
         edges = draw(st.lists(st.sampled_from(pairs), max_size=min(len(pairs), 20), unique=True)) if pairs else []
     labels = draw(st.sampled_from(["int", "offset", "str"]))
@@ -36,7 +40,9 @@ def graph_case(draw, tier):
         st.tuples(st.just("perc"), st.sampled_from([0.0, 1.0, 1.0, 0.5, 0.3, 0.9])),
         st.tuples(st.just("perc"), st.floats(0.0, 1.0)),
         st.tuples(st.just("rewire"), st.integers(0, 1000))), min_size=1, max_size=6))
-    return {"n": n, "flip": draw(st.booleans()), "edges_first": draw(st.booleans()),
+    # self-loops are ordinary edges of a generated network (a vertex drawn twice into one motif): they join nothing
+    loops = draw(st.one_of(st.just([]), st.just([]), st.lists(st.integers(0, n - 1), unique=True, max_size=n), st.just(list(range(n)))))
+    return {"n": n, "flip": draw(st.booleans()), "edges_first": draw(st.booleans()), "loops": sorted(loops),
             "edges": [list(sorted(e)) for e in edges], "labels": labels, "attrs": attrs,
             "ops": [list(o) for o in ops], "seed": draw(st.integers(0, 2 ** 31))}
 
@@ -55,6 +61,9 @@ def enumerated(tier, seed):
     out.append({"stat": True, "bigstar": True, "M": 1500, "phi": 0.5, "T": 30 if tier == "quick" else 100, "seed": seed * 100 + 91})
     for i, (M, phi) in enumerate([(4, 0.2), (7, 0.35), (12, 0.7), (1, 0.08), (3, 0.05), (2, 0.93)] + ([(5, 0.7), (9, 0.2), (10, 0.35)] if tier == "thorough" else [])):
         out.append({"stat": True, "M": M, "phi": phi, "T": T, "seed": seed * 100 + i})
+    # the same law on stars that carry a self-loop on every vertex
+    for i, (M, phi) in enumerate([(3, 0.5), (6, 0.3)]):
+        out.append({"stat": True, "M": M, "phi": phi, "T": T, "seed": seed * 100 + 50 + i, "loops": True})
     return out
 
 
@@ -113,6 +122,8 @@ def check(case):
                                                       f"Binomial mean {M * phi:.1f} (z = {z:.1f})")
             return {"nontrivial": True, "classes": ["statistical", "large_star"], "notes": {"z_large_star": abs(z)}}
         G = nx.star_graph(M)
+        if case.get("loops"):
+            G.add_edges_from((v, v) for v in G.nodes())
         cnt = [0] * (M + 1)
         with rng.seeded(case["seed"]):
             for _ in range(T):
@@ -126,7 +137,7 @@ def check(case):
         if p < stats.ALPHA:
             raise Violation("binomial-law", f"star with {M} leaves, phi={phi}: retained-edge counts {cnt} vs Binomial "
                                             f"expectation {[round(e, 1) for e in exp]}: chi2={s:.1f} df={df} p={p:.3g}")
-        return {"nontrivial": True, "classes": ["statistical"], "notes": {"p_binomial": p}}
+        return {"nontrivial": True, "classes": ["statistical"] + (["self_loops"] if case.get("loops") else []), "notes": {"p_binomial": p}}
     n = case["n"]
     lab = {"int": lambda i: i, "offset": lambda i: 10 * i + 7, "str": lambda i: f"v{i}"}[case["labels"]]
     G = nx.Graph()
@@ -142,7 +153,14 @@ def check(case):
             G.add_edge(lab(a), lab(b))
     for i in range(n):
         G.add_node(lab(i))
+    for v in case.get("loops") or ():
+        if case["attrs"]:
+            G.add_edge(lab(v), lab(v), topology="t0", motif_ids=1000 + v, w=[v])
+        else:
+            G.add_edge(lab(v), lab(v))
     classes = {"labels_" + case["labels"]}
+    if case.get("loops"):
+        classes.add("self_loops")
     mid = False
     with rng.seeded(case["seed"]):
         for step, (op, arg) in enumerate(case["ops"]):
